@@ -45,9 +45,11 @@
 package main
 
 import (
+	"bytes"
 	"fmt"
 	"go/ast"
 	"go/parser"
+	"go/printer"
 	"go/token"
 	"os"
 	"os/exec"
@@ -943,6 +945,262 @@ func main() {
 	w("/-- files whose root expression generates the source at run time (their definitions are seen by the harness only) -/\n")
 	w("def dynamicIncludes : List String := [%s]\n\n", strings.Join(ds, ", "))
 	w("def builtinCount : Nat := %d\ndef defCount : Nat := %d\n\n", len(bi), len(all))
-	w("end FqModel.Gen.Overrides\n\nnamespace FqModel.Gen\nabbrev overrides := Overrides.overrides\nend FqModel.Gen\n")
+	w("end FqModel.Gen.Overrides\n\nnamespace FqModel.Gen\nabbrev overrides := Overrides.overrides\nend FqModel.Gen\n\n")
+	w("%s", encodersLean(filepath.Join(repo, "internal/colorjson/encoder.go"), filepath.Join(dir, "encoder.go")))
 	fmt.Print(sb.String())
+}
+
+// ---------------------------------------------------------------- the string escaping of the two JSON encoders
+
+// escTable is what encodeString of an encoder does, read off its AST (fails closed on any other shape):
+//
+//	for i := 0; i < len(s); {
+//		if b := s[i]; b < utf8.RuneSelf {
+//			if <LO> <= b && b <= <HI> && b != <X1> && b != <X2> … { i++; continue }     -> passLo, passHi, passExcl
+//			if start < i { e.w.WriteString(s[start:i]) }
+//			switch b { case <C>: e.w.WriteString(<LIT>) … default: \u00 + hex[b>>4] + hex[b&0xF] }   -> cases, defaultU00
+//			i++; start = i; continue
+//		}
+//		c, size := utf8.DecodeRuneInString(s[i:])
+//		if <COND> { … e.w.WriteString(<LIT>) … }  (any number of them)                  -> nonASCII
+//		i += size
+//	}
+type escTable struct {
+	passLo, passHi int
+	passExcl       []int
+	cases          [][2]string // byte (decimal), written literal (unquoted)
+	defaultU00     bool
+	nonASCII       [][2]string // printed condition, written literals joined by \x00
+	loop           string
+}
+
+func charLit(e ast.Expr) (int, bool) {
+	b, ok := e.(*ast.BasicLit)
+	if !ok || b.Kind != token.CHAR {
+		return 0, false
+	}
+	s, err := strconv.Unquote(b.Value)
+	if err != nil || len([]rune(s)) != 1 {
+		return 0, false
+	}
+	return int([]rune(s)[0]), true
+}
+
+func printNode(fset *token.FileSet, n any) string {
+	var buf bytes.Buffer
+	if err := (&printer.Config{Mode: printer.RawFormat}).Fprint(&buf, fset, n); err != nil {
+		fail("printer: %v", err)
+	}
+	return buf.String()
+}
+
+func isIdent(e ast.Expr, name string) bool {
+	id, ok := e.(*ast.Ident)
+	return ok && id.Name == name
+}
+
+// writeLits: the string literals passed to e.w.WriteString in a statement list (other statements printed into `rest`)
+func writeLits(fset *token.FileSet, stmts []ast.Stmt) (lits []string, rest []string) {
+	for _, st := range stmts {
+		if es, ok := st.(*ast.ExprStmt); ok {
+			if c, ok := es.X.(*ast.CallExpr); ok {
+				if se, ok := c.Fun.(*ast.SelectorExpr); ok && se.Sel.Name == "WriteString" && len(c.Args) == 1 {
+					if s, ok := strLit(c.Args[0]); ok {
+						lits = append(lits, s)
+						continue
+					}
+				}
+			}
+		}
+		rest = append(rest, printNode(fset, st))
+	}
+	return lits, rest
+}
+
+func readEncoder(path string) escTable {
+	fset := token.NewFileSet()
+	f, err := parser.ParseFile(fset, path, nil, 0)
+	if err != nil {
+		fail("%v", err)
+	}
+	var fn *ast.FuncDecl
+	for _, d := range f.Decls {
+		if fd, ok := d.(*ast.FuncDecl); ok && fd.Name.Name == "encodeString" {
+			if fn != nil {
+				fail("%s: two encodeString functions", path)
+			}
+			fn = fd
+		}
+	}
+	if fn == nil {
+		fail("%s: no encodeString", path)
+	}
+	var loop *ast.ForStmt
+	for _, st := range fn.Body.List {
+		if fs, ok := st.(*ast.ForStmt); ok {
+			if loop != nil {
+				fail("%s: encodeString has two loops", path)
+			}
+			loop = fs
+		}
+	}
+	if loop == nil {
+		fail("%s: encodeString has no loop", path)
+	}
+	t := escTable{loop: printNode(fset, loop)}
+	body := loop.Body.List
+	if len(body) < 3 {
+		fail("%s: encodeString loop body too short", path)
+	}
+	// 1. the ASCII branch
+	first, ok := body[0].(*ast.IfStmt)
+	if !ok || first.Init == nil || printNode(fset, first.Init) != "b := s[i]" || printNode(fset, first.Cond) != "b < utf8.RuneSelf" || first.Else != nil {
+		fail("%s: encodeString: the loop does not start with `if b := s[i]; b < utf8.RuneSelf`", path)
+	}
+	ab := first.Body.List
+	if len(ab) != 6 {
+		fail("%s: encodeString: ASCII branch has %d statements, want 6", path, len(ab))
+	}
+	pass, ok := ab[0].(*ast.IfStmt)
+	if !ok || printNode(fset, pass.Body) != "{\n\ti++\n\tcontinue\n}" {
+		fail("%s: encodeString: ASCII branch does not start with the pass-through test: %q", path, printNode(fset, ab[0]))
+	}
+	t.passLo, t.passHi = -1, -1
+	var conj func(e ast.Expr)
+	conj = func(e ast.Expr) {
+		be, ok := e.(*ast.BinaryExpr)
+		if !ok {
+			fail("%s: encodeString: pass-through condition: unexpected %s", path, printNode(fset, e))
+		}
+		if be.Op == token.LAND {
+			conj(be.X)
+			conj(be.Y)
+			return
+		}
+		if v, ok := charLit(be.X); ok && isIdent(be.Y, "b") && be.Op == token.LEQ && t.passLo < 0 {
+			t.passLo = v
+		} else if v, ok := charLit(be.Y); ok && isIdent(be.X, "b") && be.Op == token.LEQ && t.passHi < 0 {
+			t.passHi = v
+		} else if v, ok := charLit(be.Y); ok && isIdent(be.X, "b") && be.Op == token.NEQ {
+			t.passExcl = append(t.passExcl, v)
+		} else {
+			fail("%s: encodeString: pass-through condition: unexpected %s", path, printNode(fset, e))
+		}
+	}
+	conj(pass.Cond)
+	if t.passLo < 0 || t.passHi < 0 {
+		fail("%s: encodeString: pass-through condition has no bounds", path)
+	}
+	if printNode(fset, ab[1]) != "if start < i {\n\te.w.WriteString(s[start:i])\n}" {
+		fail("%s: encodeString: ASCII branch: unexpected flush %q", path, printNode(fset, ab[1]))
+	}
+	sw, ok := ab[2].(*ast.SwitchStmt)
+	if !ok || sw.Init != nil || !isIdent(sw.Tag, "b") {
+		fail("%s: encodeString: ASCII branch: no `switch b`", path)
+	}
+	sawDefault := false
+	for _, cc := range sw.Body.List {
+		cl := cc.(*ast.CaseClause)
+		if cl.List == nil {
+			sawDefault = true
+			want := "const hex = \"0123456789abcdef\"\ne.w.WriteString(`\\u00`)\ne.w.WriteByte(hex[b>>4])\ne.w.WriteByte(hex[b&0xF])"
+			var ps []string
+			for _, st := range cl.Body {
+				ps = append(ps, printNode(fset, st))
+			}
+			got := strings.Join(ps, "\n")
+			// the constant may live outside the function
+			t.defaultU00 = got == want || got == strings.TrimPrefix(want, "const hex = \"0123456789abcdef\"\n") && strings.Contains(printNode(fset, f), "hex = \"0123456789abcdef\"")
+			continue
+		}
+		lits, rest := writeLits(fset, cl.Body)
+		if len(lits) != 1 || len(rest) != 0 {
+			fail("%s: encodeString: a case of `switch b` is not one WriteString of a literal", path)
+		}
+		for _, e := range cl.List {
+			v, ok := charLit(e)
+			if !ok {
+				fail("%s: encodeString: non-character case label", path)
+			}
+			t.cases = append(t.cases, [2]string{strconv.Itoa(v), lits[0]})
+		}
+	}
+	if !sawDefault {
+		fail("%s: encodeString: `switch b` without default", path)
+	}
+	if printNode(fset, ab[3]) != "i++" || printNode(fset, ab[4]) != "start = i" || printNode(fset, ab[5]) != "continue" {
+		fail("%s: encodeString: ASCII branch does not end with i++; start = i; continue", path)
+	}
+	// 2. the non-ASCII part
+	if printNode(fset, body[1]) != "c, size := utf8.DecodeRuneInString(s[i:])" {
+		fail("%s: encodeString: expected DecodeRuneInString, got %q", path, printNode(fset, body[1]))
+	}
+	for _, st := range body[2 : len(body)-1] {
+		is, ok := st.(*ast.IfStmt)
+		if !ok || is.Init != nil || is.Else != nil {
+			fail("%s: encodeString: unexpected statement in the non-ASCII part: %q", path, printNode(fset, st))
+		}
+		lits, _ := writeLits(fset, is.Body.List)
+		t.nonASCII = append(t.nonASCII, [2]string{printNode(fset, is.Cond), strings.Join(lits, "\x00")})
+	}
+	if printNode(fset, body[len(body)-1]) != "i += size" {
+		fail("%s: encodeString: loop does not end with i += size", path)
+	}
+	return t
+}
+
+func leanNatList(xs []int) string {
+	var ps []string
+	for _, x := range xs {
+		ps = append(ps, strconv.Itoa(x))
+	}
+	return "[" + strings.Join(ps, ", ") + "]"
+}
+
+func leanCodePoints(s string) string {
+	var xs []int
+	for _, r := range s {
+		xs = append(xs, int(r))
+	}
+	return leanNatList(xs)
+}
+
+func (t escTable) lean(name, src string) string {
+	var sb strings.Builder
+	fmt.Fprintf(&sb, "/-- %s -/\ndef %s : Esc := {\n  passLo := %d, passHi := %d, passExcl := %s,\n  cases := [", src, name, t.passLo, t.passHi, leanNatList(t.passExcl))
+	for i, c := range t.cases {
+		if i > 0 {
+			sb.WriteString(", ")
+		}
+		fmt.Fprintf(&sb, "(%s, %s)", c[0], leanCodePoints(c[1]))
+	}
+	fmt.Fprintf(&sb, "],\n  defaultU00 := %v,\n  nonAscii := [", t.defaultU00)
+	for i, c := range t.nonASCII {
+		if i > 0 {
+			sb.WriteString(", ")
+		}
+		fmt.Fprintf(&sb, "(%s, %s)", strconv.Quote(c[0]), strconv.Quote(c[1]))
+	}
+	sb.WriteString("],\n  loop := [\n")
+	lines := strings.Split(t.loop, "\n")
+	for i, l := range lines {
+		comma := ","
+		if i == len(lines)-1 {
+			comma = ""
+		}
+		fmt.Fprintf(&sb, "    %s%s\n", strconv.Quote(strings.TrimLeft(l, "\t")), comma)
+	}
+	sb.WriteString("  ] }\n\n")
+	return sb.String()
+}
+
+func encodersLean(fqPath, gojqPath string) string {
+	var sb strings.Builder
+	sb.WriteString("/- the string escaping of fq's JSON encoder (internal/colorjson/encoder.go encodeString) and of the reference's\n   (gojq encoder.go encodeString), read off the two ASTs; `loop` is the printed `for` statement -/\n")
+	sb.WriteString("namespace FqModel.Gen.Encoder\n\n")
+	sb.WriteString("structure Esc where\n  passLo : Nat\n  passHi : Nat\n  passExcl : List Nat\n  /-- byte ↦ code points written instead -/\n  cases : List (Nat × List Nat)\n  /-- the default case writes `\\u00` and the two lower-case hex digits of the byte -/\n  defaultU00 : Bool\n  /-- (condition, written literals) of every `if` after utf8.DecodeRuneInString -/\n  nonAscii : List (String × String)\n  /-- the printed `for` statement, line by line (indentation dropped) -/\n  loop : List String\n  deriving DecidableEq, Repr\n\n")
+	sb.WriteString(readEncoder(fqPath).lean("fq", "/repo/internal/colorjson/encoder.go"))
+	sb.WriteString(readEncoder(gojqPath).lean("gojq", "gojq encoder.go (module version of /repo/go.mod)"))
+	sb.WriteString("end FqModel.Gen.Encoder\n")
+	return sb.String()
 }
